@@ -102,17 +102,42 @@ func TestE2E(t *testing.T) {
 		canonCase(c)
 		_ = os.WriteFile(current, []byte(c.Encode()), 0o644)
 		cases = append(cases, c.Encode())
-		impl = append(impl, runCase(t, c, ropts)...)
+		var ops []opInfo
+		ro := ropts
 		if os.Getenv("VERIF_FAULTS") != "" {
-			// the same history with store operations failing (monitor only: the model's store does not fail)
+			ro.ops = &ops
+		}
+		impl = append(impl, runCase(t, c, ro)...)
+		if os.Getenv("VERIF_FAULTS") != "" {
+			// the same history with store operations failing (monitor only: the model's store does not fail).
+			// Plan 0: random operations; plan 1: an operation of a background revalidation when there is one
+			// (the re-read of the entry, the index read, a write), else random again.
+			var bgOps []opInfo
+			for _, o := range ops {
+				if o.Bg {
+					bgOps = append(bgOps, o)
+				}
+			}
 			for rep := 0; rep < 2; rep++ {
 				fc := *c
 				fc.ID = fmt.Sprintf("%s~f%d", c.ID, rep)
 				fc.Stream = "W"
 				fc.Faults = nil
+				if rep == 1 && len(bgOps) > 0 {
+					o := bgOps[g.intn(len(bgOps))]
+					kind := "err"
+					if o.Op == "get" {
+						kind = g.pick("err", "err", "garbage", "trunc")
+					}
+					fc.Faults = append(fc.Faults, FaultSpec{N: o.N, Kind: kind})
+				}
 				nf := 1 + g.intn(4)
+				if len(fc.Faults) > 0 {
+					nf = g.intn(2)
+				}
+				maxN := len(ops) + 2
 				for j := 0; j < nf; j++ {
-					fc.Faults = append(fc.Faults, FaultSpec{N: g.intn(6 * len(c.Reqs)), Kind: g.pick("err", "err", "garbage", "null", "trunc")})
+					fc.Faults = append(fc.Faults, FaultSpec{N: g.intn(maxN), Kind: g.pick("err", "err", "garbage", "null", "trunc")})
 				}
 				_ = os.WriteFile(current, []byte(fc.Encode()), 0o644)
 				cases = append(cases, fc.Encode())
